@@ -85,9 +85,6 @@ impl A {
             Syn::Uuid => "UU",
         }
     }
-    pub fn from_key(k: &str) -> Option<A> {
-        ALL_A.iter().copied().find(|a| a.key() == k)
-    }
 }
 
 /// A plain value: what is stored, or what a filter asserts.
